@@ -18,8 +18,8 @@ LEVEL_NOTE = ("Bounds: record length n in [F, F+1] quick / [F, F+4] thorough whe
               "structure (25-48); quick decides one representative class per pattern shape plus 6 enzyme geometries, thorough "
               "all distinct kit patterns and all geometries of the installed Bio.Restriction. Letters over ACGT. The "
               "existential over cut positions is first tried at the positions where the class's own match lies and expanded "
-              "to all positions only if that instance can fail. Generic classes over 3'-overhang cutters are C17's business "
-              "(their structure does not compile). Trusted: z3, CPython, symx models (re, Bio.Restriction.catalyse, Bio.Seq*).")
+              "to all positions only if that instance can fail. Generic classes over 3'-overhang cutters compile since fix 297887b; their "
+              "totality is C17's obligation, the fragment semantics stated by C04 (leading overhang kept) is the 5' one. Trusted: z3, CPython, symx models (re, Bio.Restriction.catalyse, Bio.Seq*).")
 TECHNIQUE = "bounded symbolic execution of the real Python source (symx) with z3 on fully symbolic plasmids; restriction-geometry oracle; replay on the real stack"
 EXPLANATION = ("symbolic execution of the kit/generic classes on a symbolic plasmid of every length in the bound: the regex "
                "search loop, the wrap-around group extraction, the illegal-site screen and the rotate-and-slice fragment "
@@ -135,6 +135,7 @@ def shape_key(pattern):
 
 
 QUICK_ENZYMES = ["BsaI", "BbsI", "SapI", "FokI", "BsmBI", "BtgZI"]
+AMBIGUOUS_ENZYMES = ["AspBHI", "LpnPI"]  # 5' overhang, ambiguity codes in the recognition site
 
 
 def class_params(tier, seed):
@@ -150,7 +151,7 @@ def class_params(tier, seed):
         seen.add(key)
         out.append((dict(src="kit", kit=kit, cls=name), pat, fixed_letters(pat)))
     geos = geometries()
-    names = QUICK_ENZYMES if tier == "quick" else [v[0] for k, v in sorted(geos.items())]
+    names = QUICK_ENZYMES if tier == "quick" else [v[0] for k, v in sorted(geos.items())] + AMBIGUOUS_ENZYMES
     for e in names:
         for role in ("module", "vector"):
             cls = generic_class(st, role, e)
